@@ -219,6 +219,11 @@ def anyLe0 (l : List α) : Bool := l.any fun x => le x 0.0
 def guessOutside (lo hi : α) : Option Err :=
   if le hi lo || lt 1.0 lo || lt hi 1.0 then some .value else none
 
+/-- `Model.invert()` after the repair of finding F19 (`/repo` 8e6b126): the initial guess is clipped
+    into `[lo, hi]`, so SciPy refuses only empty limits (`lo ≥ hi`). -/
+def limitsEmpty (lo hi : α) : Option Err :=
+  if le hi lo then some .value else none
+
 /-- the `if Lp <= 0 or … : raise ValueError` guards -/
 def Kind.check : Kind → List α → Option Err
   | .fOff, _ | .dOff, _ => none
@@ -334,7 +339,7 @@ def check : M α → List α → Option Err
   | inv m lo hi _, v =>
       match m.check v with
       | some e => some e
-      | none => guessOutside lo hi
+      | none => limitsEmpty lo hi
 
 /-- `Model._raw_call(independent, param_vector)` -/
 def val (S : Solver α) : M α → α → List α → α
